@@ -103,45 +103,102 @@ pub fn c02_c06_q_rect_wide() {
     reach!(sa.contains(q) && !fa.contains(q), "reach.in_stroke");
 }
 
-#[cfg_attr(kani, kani::proof, kani::unwind(27))]
-pub fn c01_c02_c06_q_rect_paths() {
-    let r = Rectangle::new(point(4), Size::new(upto(3), upto(3)));
-    let (f, s) = sym_colors();
-    let st = r.into_styled(style(upto(1), alignment(), f, s));
-    let q = r.top_left + point(4);
-    three_paths!(st, q);
-    reach!(st.fill_area().contains(q), "reach.in_fill");
+macro_rules! c06_rect_paths {
+    ($name:ident, $presence:expr, $smax:expr, $wmax:expr, $unw:expr) => {
+        /// Rectangle: all three rendering paths, symbolic geometry and stroke
+        #[cfg_attr(kani, kani::proof, kani::unwind($unw))]
+        pub fn $name() {
+            let r = Rectangle::new(point(4), Size::new(upto($smax), upto($smax)));
+            let (f, s) = colors_for($presence);
+            let st = r.into_styled(style(upto($wmax), alignment(), f, s));
+            let q = r.top_left + point(4);
+            three_paths!(st, q);
+            reach!(st.stroke_area().contains(q), "reach.in_stroke_area");
+        }
+    };
 }
+#[cfg(feature = "thorough")]
+c06_rect_paths!(c01_c02_c06_t_rect_paths_both, 0, 2, 1, 18);
+#[cfg(feature = "thorough")]
+c06_rect_paths!(c01_c02_c06_t_rect_paths_stroke, 2, 2, 1, 18);
 
 // ------------------------------------------------------------------ regime G: listed geometry + stroke
 // geometry (width, alignment), symbolic colour presence/values and probe
 
+/// colour presence fixed per harness (each `match` arm of draw_styled / pixels() separately),
+/// colour values symbolic
+pub fn colors_for(presence: u32) -> (Option<Gray8>, Option<Gray8>) {
+    let f = gray8();
+    let s = gray8();
+    kani::assume(f != s);
+    match presence {
+        0 => (Some(f), Some(s)),
+        1 => (Some(f), None),
+        _ => (None, Some(s)),
+    }
+}
+
+/// native draw vs areas (C06) + pixels() via draw_iter (C01) [+ default-path draw when $full]
+macro_rules! two_paths {
+    ($styled:expr, $q:expr, $full:expr) => {{
+        let st = $styled;
+        let q: Point = $q;
+        let a = native_vs_areas!(st, q);
+        let bb = Rectangle::new(Point::new(-100000, -100000), Size::new(200000, 200000));
+        let mut c = Probe::<Gray8>::new(q, bb);
+        c.draw_iter(st.pixels()).unwrap();
+        note!("pixels", c.last);
+        check!(c.last == a.last, "C01.pixels_eq_draw");
+        if $full {
+            let mut b = Probe::<Gray8>::new(q, bb);
+            st.draw(&mut b).unwrap();
+            note!("default", b.last);
+            check!(a.last == b.last, "C01.native_eq_default");
+        }
+        if c.last.is_some() { check!(in_rect(&st.bounding_box(), q), "C02.inside_bbox"); }
+    }};
+}
+
 macro_rules! c06_g {
-    ($name:ident, $unw:expr, [$(($shape:expr, $w:expr, $al:ident)),+ $(,)?]) => {
+    ($name:ident, $presence:expr, $full:expr, $unw:expr, [$(($shape:expr, $w:expr, $al:ident)),+ $(,)?]) => {
         #[cfg_attr(kani, kani::proof, kani::unwind($unw))]
         pub fn $name() {
             let q = point(5);
-            let (f, s) = sym_colors();
-            $( { let st = $shape.into_styled(style($w, StrokeAlignment::$al, f, s)); three_paths!(st, q); } )+
+            let (f, s) = colors_for($presence);
+            $( { let st = $shape.into_styled(style($w, StrokeAlignment::$al, f, s)); two_paths!(st, q, $full); } )+
             reach!(true, "reach.end");
         }
     };
 }
 const A0: Point = Point::new(0, 0);
 const A1: Point = Point::new(-3, -2);
-c06_g!(c01_c02_c06_q_g_circles, 60, [
-    (Circle::new(A0, 5), 1, Inside), (Circle::new(A1, 4), 2, Center), (Circle::new(A0, 3), 1, Outside),
-    (Circle::new(A1, 2), 3, Inside), (Circle::new(A0, 6), 0, Center), (Circle::new(A1, 1), 1, Center),
-]);
-c06_g!(c01_c02_c06_q_g_ellipses, 60, [
-    (Ellipse::new(A0, Size::new(6, 4)), 1, Inside), (Ellipse::new(A1, Size::new(3, 5)), 1, Outside),
-    (Ellipse::new(A0, Size::new(4, 6)), 2, Center), (Ellipse::new(A1, Size::new(5, 2)), 2, Inside),
-]);
-c06_g!(c01_c02_c06_q_g_rrects, 60, [
-    (RoundedRectangle::with_equal_corners(Rectangle::new(A0, Size::new(6, 5)), Size::new(2, 2)), 1, Inside),
-    (RoundedRectangle::with_equal_corners(Rectangle::new(A1, Size::new(4, 6)), Size::new(1, 2)), 2, Inside),
-    (RoundedRectangle::with_equal_corners(Rectangle::new(A0, Size::new(4, 4)), Size::new(1, 1)), 1, Outside),
-]);
+macro_rules! c06_g3 {
+    ($both:ident, $fill:ident, $stroke:ident, $full:expr, $unw:expr, $list:tt) => {
+        c06_g!($both, 0, $full, $unw, $list);
+        c06_g!($fill, 1, $full, $unw, $list);
+        c06_g!($stroke, 2, $full, $unw, $list);
+    };
+}
+c06_g3!(c01_c02_c06_q_g_circles_both, c01_c02_c06_q_g_circles_fill, c01_c02_c06_q_g_circles_stroke, false, 40,
+    [(Circle::new(A0, 5), 1, Inside), (Circle::new(A1, 4), 2, Center), (Circle::new(A0, 2), 3, Inside), (Circle::new(A1, 3), 1, Outside)]);
+c06_g3!(c01_c02_c06_q_g_ellipses_both, c01_c02_c06_q_g_ellipses_fill, c01_c02_c06_q_g_ellipses_stroke, false, 40,
+    [(Ellipse::new(A0, Size::new(6, 4)), 1, Inside), (Ellipse::new(A1, Size::new(3, 5)), 1, Outside), (Ellipse::new(A0, Size::new(2, 6)), 3, Inside)]);
+c06_g3!(c01_c02_c06_q_g_rrects_both, c01_c02_c06_q_g_rrects_fill, c01_c02_c06_q_g_rrects_stroke, false, 40,
+    [(RoundedRectangle::with_equal_corners(Rectangle::new(A0, Size::new(6, 5)), Size::new(2, 2)), 1, Inside),
+     (RoundedRectangle::with_equal_corners(Rectangle::new(A1, Size::new(4, 6)), Size::new(1, 2)), 2, Inside)]);
+c06_g3!(c01_c02_c06_q_g_rects_both, c01_c02_c06_q_g_rects_fill, c01_c02_c06_q_g_rects_stroke, true, 40,
+    [(Rectangle::new(A0, Size::new(4, 3)), 1, Inside), (Rectangle::new(A1, Size::new(3, 4)), 2, Center), (Rectangle::new(A0, Size::new(2, 5)), 3, Inside), (Rectangle::new(A1, Size::new(0, 2)), 1, Outside)]);
+#[cfg(feature = "thorough")]
+c06_g3!(c01_c02_c06_t_g_circles2_both, c01_c02_c06_t_g_circles2_fill, c01_c02_c06_t_g_circles2_stroke, true, 90,
+    [(Circle::new(A0, 8), 2, Center), (Circle::new(A1, 7), 3, Inside), (Circle::new(A0, 1), 1, Center), (Circle::new(A1, 6), 0, Center), (Circle::new(A0, 4), 5, Inside)]);
+#[cfg(feature = "thorough")]
+c06_g3!(c01_c02_c06_t_g_ellipses2_both, c01_c02_c06_t_g_ellipses2_fill, c01_c02_c06_t_g_ellipses2_stroke, true, 90,
+    [(Ellipse::new(A0, Size::new(8, 5)), 2, Center), (Ellipse::new(A1, Size::new(4, 9)), 1, Inside), (Ellipse::new(A0, Size::new(5, 2)), 2, Inside), (Ellipse::new(A1, Size::new(3, 3)), 2, Outside)]);
+#[cfg(feature = "thorough")]
+c06_g3!(c01_c02_c06_t_g_rrects2_both, c01_c02_c06_t_g_rrects2_fill, c01_c02_c06_t_g_rrects2_stroke, true, 90,
+    [(RoundedRectangle::with_equal_corners(Rectangle::new(A0, Size::new(4, 10)), Size::new(2, 2)), 2, Inside),
+     (RoundedRectangle::with_equal_corners(Rectangle::new(A1, Size::new(8, 6)), Size::new(3, 2)), 2, Center),
+     (RoundedRectangle::with_equal_corners(Rectangle::new(A0, Size::new(4, 4)), Size::new(1, 1)), 1, Outside)]);
 
 // ------------------------------------------------------------------ hooked styled-row kernels
 #[cfg(embedded_graphics_verif)]
@@ -181,9 +238,14 @@ pub mod kernels {
             }
         };
     }
-    c06_row!(c06_q_k_circle_row, Circle::new(anchor(), small_u(4)), hk::circle_styled_scanline_at, 5, 2, 24);
-    c06_row!(c06_q_k_ellipse_row, Ellipse::new(anchor(), size(3)), hk::ellipse_styled_scanline_at, 4, 2, 16);
-    c06_row!(c06_q_k_rrect_row, RoundedRectangle::with_equal_corners(Rectangle::new(anchor(), size(3)), size(2)), hk::rounded_rectangle_styled_scanline_at, 4, 2, 16);
+    c06_row!(c06_q_k_circle_row_d7, Circle::new(anchor(), small_u(3)), hk::circle_styled_scanline_at, 4, 2, 16);
+    c06_row!(c06_q_k_ellipse_row_3, Ellipse::new(anchor(), size(2)), hk::ellipse_styled_scanline_at, 3, 1, 8);
+    #[cfg(feature = "thorough")]
+    c06_row!(c06_t_k_circle_row_d15, Circle::new(anchor(), small_u(4)), hk::circle_styled_scanline_at, 5, 2, 24);
+    #[cfg(feature = "thorough")]
+    c06_row!(c06_t_k_ellipse_row_7, Ellipse::new(anchor(), size(3)), hk::ellipse_styled_scanline_at, 4, 2, 16);
+    #[cfg(feature = "thorough")]
+    c06_row!(c06_t_k_rrect_row_3, RoundedRectangle::with_equal_corners(Rectangle::new(anchor(), size(2)), size(1)), hk::rounded_rectangle_styled_scanline_at, 3, 1, 9);
 }
 
 /// Reachability twin.
